@@ -9,6 +9,8 @@ evaluated on the implementation for dyadic and generic float data.
 """
 from __future__ import annotations
 
+from fractions import Fraction
+
 import numpy as np
 
 from ..lib.core import flist, fmt, frac
@@ -217,6 +219,19 @@ def oracle(ctx, d, shape, hs, rng, exact):
                 if not ok:
                     return fail(f"c2f_{mode}:{kind}", f"cell_to_face_average({kind}, {mode}) is not the {mode} mean of the two neighbours (component/diagonal of the face axis)",
                                 kind=kind, mode=mode, q=q.tolist())
+                # scale-free: extreme magnitudes against exact rational arithmetic, and homogeneity for power-of-two factors
+                for sc in (2.0 ** -45, 2.0 ** 40, 2.0 ** -300):
+                    gs = np.asarray(d.cell_to_face_average(g, q * sc, mode)).ravel()
+                    xs, ys = x * sc, y * sc
+                    for f in range(nf):
+                        fx, fy = Fraction(float(xs[f])), Fraction(float(ys[f]))
+                        ex = (fx + fy) / 2 if mode == "arithmetic" else 2 * fx * fy / (fx + fy)
+                        if abs(Fraction(float(gs[f])) - ex) > Fraction(1, 10 ** 12) * abs(ex):
+                            return fail(f"c2f_{mode}:{kind}:scale", f"cell_to_face_average({kind}, {mode}) of neighbours {float(xs[f])!r}, {float(ys[f])!r} is {float(gs[f])!r}, exact mean {float(ex)!r}",
+                                        kind=kind, mode=mode, scale=sc, q=(q * sc).tolist(), face=f)
+                    if gs.shape != got.shape or not np.array_equal(gs, got * sc):
+                        return fail(f"c2f_{mode}:{kind}:homogeneity", f"cell_to_face_average({kind}, {mode}): mean(s*a, s*b) != s*mean(a, b) for s={sc!r}",
+                                    kind=kind, mode=mode, scale=sc, q=q.tolist())
         # 7. tangential reconstruction reproduces constants on interior faces
         if dim >= 2:
             k = 1.75
